@@ -177,3 +177,27 @@ Theorem unit_mobility_velocity_backward_last frames maps p t ti vs0 x0 y0 tf vs1
   exists vx vy, calculate_velocity frames maps p t = Some (vx, vy) /\ (vx == fx)%Q /\ (vy == fy)%Q.
 Proof. intros H1 H2 H3 H4 H5 H6 Hdt. eexists. eexists. split; [eapply velocity_backward_last; eassumption|].
   split; apply unit_mobility_component; exact Hdt. Qed.
+
+(* ------------------------------------------------------------------ the bounding-box test (time_series.py:129-147) *)
+From Coq Require Import Permutation.
+Lemma qmax_comm_eq a b : (qmax a b == qmax b a)%Q.
+Proof. unfold qmax. destruct (Qle_bool a b) eqn:E1, (Qle_bool b a) eqn:E2; try reflexivity.
+  - apply Qle_bool_iff in E1. apply Qle_bool_iff in E2. apply Qle_antisym; assumption.
+  - exfalso. assert (H : ~ (a <= b)%Q) by (intros H; apply Qle_bool_iff in H; congruence).
+    assert (H' : ~ (b <= a)%Q) by (intros H'; apply Qle_bool_iff in H'; congruence). apply H. apply Qlt_le_weak. apply Qnot_le_lt. exact H'. Qed.
+
+(* frames whose bounding boxes have the same width and height are never "too different", whatever the positions inside *)
+Theorem same_extent_not_too_different (p0 p1 : list vtx) :
+  (lmax (xs_of p1) - lmin (xs_of p1) == lmax (xs_of p0) - lmin (xs_of p0))%Q ->
+  (lmax (ys_of p1) - lmin (ys_of p1) == lmax (ys_of p0) - lmin (ys_of p0))%Q ->
+  too_different p0 p1 = false.
+Proof. intros Hx Hy. unfold too_different. apply negb_false_iff. apply Qle_bool_iff.
+  set (m := ((1 # 10) * maxcoord_of p0 p1)%Q).
+  assert (E : ((lmax (xs_of p1) - lmin (xs_of p1) - (lmax (xs_of p0) - lmin (xs_of p0))) * (lmax (xs_of p1) - lmin (xs_of p1) - (lmax (xs_of p0) - lmin (xs_of p0))) +
+               (lmax (ys_of p1) - lmin (ys_of p1) - (lmax (ys_of p0) - lmin (ys_of p0))) * (lmax (ys_of p1) - lmin (ys_of p1) - (lmax (ys_of p0) - lmin (ys_of p0))) == 0)%Q)
+    by (rewrite Hx, Hy; ring).
+  rewrite E. destruct (Qlt_le_dec m 0) as [Hn | Hp].
+  - setoid_replace (m * m)%Q with ((- m) * (- m))%Q by ring. apply Qmult_le_0_compat; apply Qlt_le_weak; apply Qopp_lt_compat in Hn; exact Hn.
+  - apply Qmult_le_0_compat; exact Hp. Qed.
+Corollary frame_not_too_different_from_itself (p : list vtx) : too_different p p = false.
+Proof. apply same_extent_not_too_different; reflexivity. Qed.
